@@ -39,6 +39,8 @@ def build_bind():
     """Build harness/bind (own crate: depends on harness/bshim = the bindings as an rlib, on /repo and on
     the shared harness library) against /repo's working tree.  Modelled on common.build_harness."""
     common.ensure_dirs()
+    if os.path.realpath(common.REPO) != "/repo":
+        return _build_bind_alt()
     with common.Lock("cargo"):
         lock_src = os.path.join(common.REPO, "Cargo.lock")
         lock_dst = os.path.join(BIND, "Cargo.lock")
@@ -54,6 +56,42 @@ def build_bind():
         if p.returncode != 0:
             raise common.Broken("bind harness build failed:\n" + p.stdout[-6000:])
     return os.path.join(TARGET, "debug", "bind")
+
+
+def _build_bind_alt():
+    """VERIF_REPO points at another checkout (seeded-change runs in a scratch worktree): the manifests of
+    harness/bshim and harness/bind name /repo literally, so build copies of them (and of the shared harness
+    library) whose every /repo path is that checkout, in an own target directory.  Same pattern as
+    common._build_harness_alt; bin/seedtest serialises such runs."""
+    real = os.path.realpath(common.REPO)
+    alt = os.path.join(common.BUILD, "bind-alt")
+    target = os.path.join(common.BUILD, "target-bind-alt")
+    with common.Lock("cargo-alt"):
+        if os.path.exists(alt):
+            shutil.rmtree(alt)
+        os.makedirs(alt)
+        shutil.copytree(common.HARNESS, os.path.join(alt, "vh"),
+                        ignore=shutil.ignore_patterns("target", "bshim", "bind", "Cargo.lock"))
+        shutil.copytree(os.path.join(common.HARNESS, "bshim"), os.path.join(alt, "bshim"))
+        shutil.copytree(BIND, os.path.join(alt, "bind"), ignore=shutil.ignore_patterns("target", "Cargo.lock"))
+        for root, _, files in os.walk(alt):
+            for fn in files:
+                if fn == "Cargo.toml":
+                    pth = os.path.join(root, fn)
+                    t = open(pth).read().replace('"/repo', '"' + real)
+                    if root == os.path.join(alt, "bind"):
+                        t = t.replace('vh = { path = ".." }', 'vh = { path = "../vh" }')
+                    open(pth, "w").write(t)
+                    if '"/repo' in t and not real.startswith("/repo"):
+                        raise common.Broken("a /repo path survived in " + pth)
+        shutil.copyfile(os.path.join(real, "Cargo.lock"), os.path.join(alt, "bind", "Cargo.lock"))
+        cmd = ["cargo", "build", "--offline", "--bin", "bind"]
+        env = {"CARGO_NET_OFFLINE": "true", "RUSTFLAGS": "--cfg %s -Awarnings" % common.GUARD,
+               "CARGO_TARGET_DIR": target}
+        p = common.run(cmd, cwd=os.path.join(alt, "bind"), env=env, timeout=1500, check=False)
+        if p.returncode != 0:
+            raise common.Broken("bind harness build (alternative checkout %s) failed:\n%s" % (real, p.stdout[-6000:]))
+    return os.path.join(target, "debug", "bind")
 
 
 # ----------------------------------------------------------------------------- tokens
@@ -442,14 +480,16 @@ def c_case(toks, idx):
     return "C %s %s" % (",".join(toks) if toks else "-", ".".join(str(i) for i in idx) if idx else "-")
 
 
-FACTORS = [1.0, 1.0, 2.0, 0.5, 3.0, 1.5, 1 / 3, 0.1, 10.0, 2.75, 7.0, 0.0, 1e-3, 64.0]
+FACTORS = [1.0, 1.0, 2.0, 0.5, 3.0, 1.5, 1 / 3, 1 / 7, 0.1, 10.0, 2.75, 7.0, 0.0, 1e-3, 64.0]
 
 HAND = [
     "", "\n", "plain text only", "@a", "@a{}", "@a{1}", "@a{1%g}(note) and @a{2%g}", "#pan{2} #pan ~{5%min} ~eggs{3%minutes}",
     "> note only", "= A\n\n== B ==\n\ntext @x{1/2%cup}", ">> k: v\n>> k: w\nstep", "---\na: b\nn: 3\nl: [1]\n---\n@é{0.1%kg}",
     "@x{1-2%g} @y{some%bag} @z{=3%l}", "@x{1%g} @x{2%g} @x{3%kg} @x{few}", "~{1%h} and ~t{2%min} and ~name",
     "line one\nline two @a{1}\n\nsecond @b{2}(n)\n", "\\@ escaped @a\\", "@&a{1} @-b{2} @?c{3} @+d{4} @@e{5}",
-    "@a|alias{1} #b|c{2}", "{2%g} inline 3 kg", "@a{1%}", "@a{%g}", "@a{1 % g }", "@a{ 1 1/2 %g}", "@a{1e3%g} @b{.5} @c{01}",
+    "@a|alias{1} #b|c{2}", "@a{0.0004%kg} @b{1/16} #c{1/3} ~{0.0005%h}",
+    "~first{1%min} step\n\n= Two\n\n#pot ~second{2%min}\n\n= Three\n\nno timer here @x #pan\n\n= Four\n\n~{3%s}",
+    "@salt and later @salt{1%g} then @salt{2%g} and @salt", "{2%g} inline 3 kg", "@a{1%}", "@a{%g}", "@a{1 % g }", "@a{ 1 1/2 %g}", "@a{1e3%g} @b{.5} @c{01}",
 ]
 
 
@@ -478,7 +518,7 @@ def run(rep, tier, seed):
     texts = gen_recipes(rng, 3000 if quick else 90000)
     p_cases = [c for c in common.load_corpus("C19") if c.startswith("P ")]
     for i, t in enumerate(texts):
-        fs = {FACTORS[i % len(FACTORS)], rng.choice(FACTORS)} if i >= len(HAND) else set(FACTORS[:7])
+        fs = {FACTORS[i % len(FACTORS)], rng.choice(FACTORS)} if i >= len(HAND) else set(FACTORS[:8])
         for f in sorted(fs):
             p_cases.append("P %s %s" % (hx(t), f64tok(f)))
     pi = common.run_lines(exe, p_cases, tag="implP")
